@@ -133,7 +133,8 @@ def is_white_space(ch: str):
 
 def is_unquoted_value(ch: str):
     "Check if given code may belong to unquoted attribute value"
-    return ch and ch != Chars.Equals and not is_white_space(ch) and not is_quote(ch)
+    return ch and ch != Chars.Equals and ch != Chars.AngleLeft and ch != Chars.AngleRight \
+        and not is_white_space(ch) and not is_quote(ch)
 
 
 def is_open_bracket(ch: int):
